@@ -301,7 +301,9 @@ def manyLoop (g : Bool) (policy : Option Int) (filter : List Nat) :
             if max = 0 then manyLoop g policy filter ks 0 ((tp, l) :: acc) st'
             else if max - l.length = 0 then (st', FRes.recs ((tp, l) :: acc).reverse)
             else manyLoop g policy filter ks (max - l.length) ((tp, l) :: acc) st'
-          | (st', Res.assertion) => (st', FRes.assertion)
+          -- an exception while draining this partition: what was drained from the others is
+          -- returned, the error is raised again by a following call (as for a stored FetchError)
+          | (st', Res.assertion) => if !acc.isEmpty then (st', FRes.recs acc.reverse) else (st', FRes.assertion)
           | (st', _) => manyLoop g policy filter ks max acc st'
 
 def FSt.fetchedRecords (g : Bool) (policy : Option Int) (st : FSt) (filter : List Nat) (max : Nat) :
